@@ -583,7 +583,11 @@ func csvHistCase(c *Ctx, steps []csvHistStep, stream string) {
 			for k, v := range ds.Tables() {
 				prev[k] = v
 			}
-			ds.ParseCsvTextIntoTableWithTextColumns(st.name, st.text, st.ths...)
+			if len(st.ths) == 0 {
+				ds.ParseCsvTextIntoTable(st.name, st.text) // the plain entry point, as most callers use it
+			} else {
+				ds.ParseCsvTextIntoTableWithTextColumns(st.name, st.text, st.ths...)
+			}
 			errs := csvErrorsOf(ds)
 			added := "-"
 			if len(errs) > before {
@@ -1163,6 +1167,26 @@ func csvTCShaped(r *Rng) string {
 }
 
 func csvHistory(r *Rng) []csvHistStep {
+	if r.Chance(0.2) {
+		// text columns are a matter of ONE load: the same text loaded first WITH its headings declared as text (under a free
+		// name, or under one that makes the load fail) and then plainly must come out with its number-like fields as numbers
+		text := csvTCShaped(r)
+		ref, _ := csvRefRead(text)
+		var hdr []string
+		if len(ref) > 0 {
+			hdr = ref[0]
+		}
+		first := csvHistStep{name: "t", text: text, ths: append([]string(nil), hdr...)}
+		steps := []csvHistStep{}
+		if r.Chance(0.4) {
+			steps = append(steps, csvHistStep{name: "t", text: csvShaped(r)}) // so that the load with text headings is refused (name in use)
+		}
+		steps = append(steps, first, csvHistStep{name: "u", text: text})
+		if r.Chance(0.5) {
+			steps = append(steps, csvHistStep{name: "v", text: csvTCShaped(r)})
+		}
+		return steps
+	}
 	names := []string{"t", "t", "u", "requestContent", ""}
 	n := 2 + r.Intn(3)
 	steps := make([]csvHistStep, n)
